@@ -420,6 +420,37 @@ func callOrder(fd *ast.FuncDecl, keys []string) []string {
 	return out
 }
 
+// flow lists, in source order, the calls whose callee contains one of callKeys and the conditions of
+// the if statements that contain one of condKeys: the control skeleton of a repaired function.
+func flow(fd *ast.FuncDecl, callKeys, condKeys []string) []string {
+	var out []string
+	if fd == nil || fd.Body == nil {
+		return []string{"missing"}
+	}
+	ast.Inspect(fd.Body, func(n ast.Node) bool {
+		switch x := n.(type) {
+		case *ast.CallExpr:
+			t := src(x.Fun)
+			for _, k := range callKeys {
+				if strings.Contains(t, k) {
+					out = append(out, t)
+					break
+				}
+			}
+		case *ast.IfStmt:
+			c := src(x.Cond)
+			for _, k := range condKeys {
+				if strings.Contains(c, k) {
+					out = append(out, "if("+c+")")
+					break
+				}
+			}
+		}
+		return true
+	})
+	return out
+}
+
 // firstGuard returns the first statement of an exported method, normalised
 func firstGuard(fd *ast.FuncDecl) string {
 	if fd == nil || fd.Body == nil {
@@ -573,6 +604,19 @@ func main() {
 		}
 	}
 	w("def order_switch : List String := %s", leanList(sw))
+	// control skeletons of the functions repaired by `fix:` commits (a lost half of a repair breaks a tie at once)
+	w("def fix_syncNewMeta : List String := %s", leanList(flow(p.funcs["Tx.syncNewMeta"], []string{"Finalize", "writer.Schedule", "writer.Sync", "updateMetaCopy"}, nil)))
+	w("def fix_restoreMeta : List String := %s", leanList(flow(p.funcs["Tx.restoreMeta"], []string{"writer.Schedule", "writer.Sync", "updateMetaCopy"}, nil)))
+	w("def fix_rollbackChanges : List String := %s", leanList(flow(p.funcs["Tx.rollbackChanges"], []string{"writeSync.Wait", "writer.Sync", "allocator.Rollback", "file.Size", "file.Truncate"}, []string{"maxPages == 0", "dataEnd >", "endMarker"})))
+	w("def fix_fileInit : List String := %s", leanList(flow(p.funcs["File.init"], []string{"readWALMapping", "readAllocatorState", "absorbOverflowArea"}, nil)))
+	w("def fix_initTxMaxSize : List String := %s", leanList(flow(p.funcs["initTxMaxSize"], []string{"prepareMetaBuffer", "maxSize.Set", "dataEndWithOverflowArea", "dataEndMarker.Set", "syncNewMeta", "writeSync.Wait"}, []string{"err == nil", "err != nil"})))
+	w("def fix_initTxReleaseRegions : List String := %s", leanList(flow(p.funcs["initTxReleaseRegions"], []string{"fileCommitAlloc", "fileCommitSerialize", "fileCommitMeta", "syncNewMeta", "writeSync.Wait", "allocator.Commit"}, []string{"err != nil"})))
+	w("def fix_dataEndWithOverflowArea : List String := %s", leanList(flow(p.funcs["allocator.dataEndWithOverflowArea"], nil, []string{"dataEnd", "first", "maxPages"})))
+	w("def fix_openWith : List String := %s", leanList(flow(p.funcs["openWith"], []string{"growFile", "shrinkFile", "newFile"}, []string{"MaxSize", "maxSize"})))
+	w("def fix_txAccess : List String := %s", leanList(flow(p.funcs["Tx.access"], []string{"mmapedPage", "readPage", "ReadAt"}, nil)))
+	w("def fix_munmap : List String := %s", leanList(flow(p.funcs["File.munmap"], []string{"MUnmap", "copyMeta", "metaCopy"}, []string{"meta"})))
+	w("def pq_fix_initACK : List String := %s", leanList(flow(q.funcs["acker.initACK"], nil, []string{"pending", "endPos", "startID", "uint64(n)"})))
+	w("def pq_fix_unassignPages : List String := %s", leanList(flow(q.funcs["unassignPages"], nil, []string{"nil"})))
 	w("")
 	// guards
 	var guards []string
